@@ -13,11 +13,11 @@ ASSUMPTIONS = ['model of the parser stack validated only by this correspondence'
                'm the largest m <= p such that s[:m] parses strictly, every top-level node of strict(s[:m]) that is followed by '
                'a later non-whitespace, non-comment node appears unchanged at the same index of the tolerant result, and a last '
                'text node is kept as a prefix; the exact tolerant result is compared with the model on every case',
-               'C06_terminates / C06_total / C06_strict_outcome are proved for every string and every context whose '
-               'specifications have at most 10 argument slots (ctx_wf; the default context, regenerated from the repository on '
-               'every run, has 6 and C06_default_ctx_wf re-checks it): this is a limit of the MODEL\'s fixed fuel 8*len+40, '
-               'not of the code (C06_fuel_bound_sharp: an 11-slot context and an 80-character input exhaust it; the real '
-               'parser returns normally); C06_fuel_enough gives the bound for every context',
+               'C06_terminates / C06_total / C06_strict_outcome are proved for every string and EVERY context: the model\'s '
+               'recursion budget depends on the context, parse_fuel s cx = len(s)*(8+max_args cx) + 40 + max_args cx, where '
+               'max_args cx is the maximal number of argument slots of any specification of cx (C06_fuel_is; '
+               'C06_many_slots_terminate: an 11-slot context on which the former constant budget 8*len+40 was exhausted, '
+               'C06_constant_fuel_not_enough); fuel is only a recursion bound: more fuel never changes a result (C06_run_mono)',
                '"bounded time" is proved as termination of the model within an explicit recursion budget; wall-clock time '
                'of the real code is only guarded by the per-case timeout of the correspondence']
 PARTIAL = ['C06_prefix (the nodes parsed before the first strict error are still returned) is proved in Coq for valid content '
@@ -26,7 +26,7 @@ PARTIAL = ['C06_prefix (the nodes parsed before the first strict error are still
            '(k <> MDollar, k <> MDollars): they are not closing tokens, after a document they open a formula -, then ANY garbage: the tolerant '
            'result is EXACTLY the document\'s node list tree_of, trailing whitespace included, reader right after the token), '
            'C06_prefix_partial / C06_prefix_items_partial (document, then ANY continuation that does not start with a letter or '
-           'whitespace when the document has no trailing whitespace; needs ctx_wf: the result is a node list that begins with '
+           'whitespace when the document has no trailing whitespace; every context: the result is a node list that begins with '
            'the document\'s settled nodes = tree_of minus a text run still pending at the end, which the continuation may '
            'extend: C06_tree_settled_partial, example C06_prefix_trailing_run), C06_collector_keeps_nodes (every tolerant '
            'collector, any input: pushed nodes are never dropped). For valid content that is a document of the EXTENDED grammar '
@@ -41,9 +41,7 @@ PARTIAL = ['C06_prefix (the nodes parsed before the first strict error are still
            'grammar-independent theorems about every string / context / state: C06_own_error_is_the_collectors and '
            'C06_collector_error_reproduced (a strict collector\'s own rejection of a token is reproduced verbatim by the '
            'tolerant collector). Arbitrary continuations of extended documents, and valid content nested inside an unfinished '
-           'construct, are covered by the correspondence of the exact tolerant trees and by the conservative oracle only',
-           'C06_terminates / C06_total need ctx_wf (at most 10 argument slots per spec): the fixed fuel of the model; '
-           'C06_fuel_enough gives the bound for every context']
+           'construct, are covered by the correspondence of the exact tolerant trees and by the conservative oracle only']
 REFUTED = []
 CASE_TIMEOUT = 10.0
 case_from_desc = PC.case_from_desc
